@@ -115,6 +115,10 @@ LimitMenu == { [s EXCEPT !.limit = n] : s \in {PlainKV,
                                                Agg(<<CountStar>>, <<K>>, NoE, NoH, TRUE, NoLimit, "none"),
                                                Agg(<<KeyK, [a |-> "percentile", e |-> V, pn |-> 1, pd |-> 2, as |-> "p50", wrap |-> NoE]>>, <<K>>, NoE, NoH, FALSE, NoLimit, "none"),
                                                Agg(<<KeyK, CountV>>, <<K>>, NoE, NoH, FALSE, NoLimit, "none")}, n \in 0..3 }
+\* an aggregate's LIMIT counts the rows that DISTINCT / HAVING let through: groups whose rows coincide must not use up the limit
+LimitDistinctMenu == { [s EXCEPT !.limit = n] : s \in {Agg(<<CountStar>>, <<K>>, NoE, NoH, TRUE, NoLimit, "none"),
+                                                        Agg(<<CountStar, MaxOfV>>, <<K>>, NoE, HAgg(CountStar, ">=", IntV(1)), TRUE, NoLimit, "none"),
+                                                        Agg(<<ItE("key", V, "v")>>, <<K, V>>, NoE, HAgg(CountStar, ">=", IntV(1)), TRUE, NoLimit, "none")}, n \in 1..2 }
 LimitJoinMenu == { [s EXCEPT !.limit = n] : s \in {Star(NoE, FALSE, NoLimit, "inner"), Star(NoE, FALSE, NoLimit, "outer"),
                                                    Sel(<<P(W, "")>>, NoE, TRUE, NoLimit, "inner"),
                                                    Sel(<<P(K, ""), P(W, "")>>, CmpE(">", W, Zero), FALSE, NoLimit, "inner"),
